@@ -416,7 +416,7 @@ Definition ds_run (ops : list dop) : option dspans :=
 (* objects.  An operation that raises leaves the model state unchanged (the     *)
 (* real code asserts before mutating).                                          *)
 (* ========================================================================== *)
-Definition mix (h v : N) : N := (h * 1000003 + v + 1) mod 2305843009213693951.
+Definition mix (h v : N) : N := N.land (h * 1000003 + v + 1) 2305843009213693951.   (* mask 2^61 - 1 *)
 Definition mix_list (h : N) (vs : list N) : N := fold_left mix vs h.
 
 Definition obs_spans (l : spans) : list N :=
